@@ -50,6 +50,7 @@ extern const Kern   g_kerns[];
 extern const int    g_nkerns;
 
 double kc_now(void);
+const Kern *kc_find_kern(const char *ptr); // any entry of the generated table by dispatch pointer name
 
 // ---- case control -------------------------------------------------------------------------------------------------------
 // returns 1 when the driver must execute the current argument tuple; nontrivial = the inputs are not constant
